@@ -17,6 +17,7 @@ import (
 	"time"
 
 	"github.com/influxdata/influxdb/pkg/verifx/vtrace"
+	"github.com/influxdata/influxdb/services/meta"
 )
 
 type vpoolConn struct {
@@ -275,4 +276,91 @@ func TestVerifPoolStress(t *testing.T) {
 		}
 	}
 	vtrace.Done("TestVerifPoolStress", map[string]interface{}{"rounds": rounds, "gets": gets})
+}
+
+// ---- check-then-create of a node's pool (client_pool.go, ShardWriter.dial / MetaExecutor.dial) -------------
+// Pool.tla's companion for the per-node pool map: concurrent first dials to one node must end with ONE pool;
+// every connection ever opened must be closed once the writer is closed and all users returned theirs.
+
+type vpoolMeta struct{ addr string }
+
+func (m vpoolMeta) DataNode(id uint64) (*meta.NodeInfo, error) {
+	return &meta.NodeInfo{ID: id, TCPAddr: m.addr}, nil
+}
+
+func (m vpoolMeta) ShardOwner(shardID uint64) (string, string, *meta.ShardGroupInfo) {
+	return "", "", nil
+}
+
+func TestVerifClientPoolRace(t *testing.T) {
+	rounds := vtrace.EnvInt("VERIF_ROUNDS", 30)
+	for r := 0; r < rounds; r++ {
+		ln, err := net.Listen("tcp", "127.0.0.1:0")
+		if err != nil {
+			t.Fatal(err)
+		}
+		var mu sync.Mutex
+		open := map[net.Conn]bool{}
+		accepted := 0
+		go func() {
+			for {
+				c, err := ln.Accept()
+				if err != nil {
+					return
+				}
+				mu.Lock()
+				open[c] = true
+				accepted++
+				mu.Unlock()
+				go func(c net.Conn) { // server side: the connection counts as open until the client closes it
+					buf := make([]byte, 64)
+					for {
+						if _, err := c.Read(buf); err != nil {
+							mu.Lock()
+							delete(open, c)
+							mu.Unlock()
+							c.Close()
+							return
+						}
+					}
+				}(c)
+			}
+		}()
+		w := NewShardWriter(time.Second, time.Second, 0, 4)
+		w.MetaClient = vpoolMeta{addr: ln.Addr().String()}
+		start := make(chan struct{})
+		var wg sync.WaitGroup
+		for g := 0; g < 12; g++ {
+			wg.Add(1)
+			go func() {
+				defer wg.Done()
+				<-start
+				c, err := w.dial(7)
+				if err == nil {
+					c.Close() // back to the pool
+				}
+			}()
+		}
+		close(start)
+		wg.Wait()
+		w.Close()
+		deadline := time.Now().Add(2 * time.Second)
+		left := 0
+		for {
+			mu.Lock()
+			left = len(open)
+			mu.Unlock()
+			if left == 0 || time.Now().After(deadline) {
+				break
+			}
+			time.Sleep(5 * time.Millisecond)
+		}
+		ln.Close()
+		if left > 0 {
+			vtrace.Mismatch("clientpool:leak", fmt.Sprintf("round %d: %d of %d connections to node 7 are still open after ShardWriter.Close and all users returned theirs (a second pool was created for the node by a concurrent first dial and lost)", r, left, accepted),
+				map[string]interface{}{"test": "CLIENTPOOL", "round": r})
+			break
+		}
+	}
+	vtrace.Done("TestVerifClientPoolRace", map[string]interface{}{"rounds": rounds})
 }
